@@ -85,8 +85,8 @@ class HbModel:
                     return "tick %d: heartbeat off schedule (period %d ticks counted from tick %d)" % (t, self.P, self.base)
             else:
                 if got:
-                    if t - self.unknown_since > self.P:
-                        return "tick %d: first heartbeat %d ticks after the (re)start, period is %d" % (t, t - self.unknown_since, self.P)
+                    if t - max(self.unknown_since, self.allowed_since or 0) > self.P:
+                        return "tick %d: first heartbeat %d ticks after the (re)start, period is %d" % (t, t - max(self.unknown_since, self.allowed_since or 0), self.P)
                     self.base = t
                 elif allowed and self.allowed_since is not None and t - max(self.unknown_since, self.allowed_since) >= self.P + 0 and t - self.unknown_since >= self.P and t - self.allowed_since >= self.P:
                     return "tick %d: no heartbeat within one period (%d ticks) after the (re)start at tick %d" % (t, self.P, self.unknown_since)
